@@ -6,6 +6,9 @@ from .. import gen, core
 
 ID = "C09"
 LEAN_TARGETS = ["Cider.Props.C09", "Cider.Props.C09Tie"]
+# source-text tie (translated on every run by tools/pyexpr2lean.py); skipped when the function no longer fits the translator
+OPTIONAL_TARGETS = ["Cider.Props.C09Src"]
+OPTIONAL_THEOREMS = {"Cider.Props.C09Src": ['Cider.C09Src.verifyPH_eq']}
 P = "Cider.C09."
 THEOREMS = [P + t for t in (
     "charge_loop_eq_counts", "ncprPH_antitone", "abs_ncprPH_le_fcrPH", "fcrPH_le_titratable_fraction", "fcrPH_nonneg",
